@@ -294,6 +294,60 @@ func c19Plan(quick bool) *FuncPlan {
 			}
 			return insideOracle("prioritylock", 1, nil)(lg)
 		})})
+	// PriorityLock with three waiters, every arrival order: served by descending priority
+	for _, perm := range [][]uint8{{1, 2, 3}, {1, 3, 2}, {2, 1, 3}, {2, 3, 1}, {3, 1, 2}, {3, 2, 1}} {
+		perm := perm
+		scens = append(scens, &FuncScenario{Name: fmt.Sprintf("prioritylock-three-waiters-%d%d%d", perm[0], perm[1], perm[2]), Bound: func(q bool) int { return bound(q) - 1 },
+			Desc: []string{fmt.Sprintf("root holds PriorityLock(prio 9); waiters with priorities %v queue in this order (each once the previous one is queued on the server); root unlocks once all three are queued", perm)},
+			Sc: c19Scenario(4, func(node hapi.Node, cs []*cl.Client, lg *c19Log, spawn func(string, func()), wait func()) {
+				h := cs[0].PriorityLock(ckey(7), 9, 9, 60)
+				if _, e := h.Lock(); e != nil {
+					lg.add("!hold:%v", e)
+					return
+				}
+				queued := func(n int) func() bool {
+					return func() bool {
+						ks := node.Snapshot().Key(0, ckey(7))
+						return ks != nil && len(ks.Waiters) >= n
+					}
+				}
+				for i, p := range perm {
+					i, p := i, p
+					pl := cs[1+i].PriorityLock(ckey(7), p, 20, 60)
+					spawn(fmt.Sprintf("p%d", p), func() {
+						vrt.R.Block(queued(i))
+						if _, e := pl.Lock(); e != nil {
+							lg.add("!p%d:%v", p, e)
+							return
+						}
+						lg.add("+p%d", p)
+						lg.add("-p%d", p)
+						_, _ = pl.Unlock()
+					})
+				}
+				spawn("holder", func() {
+					vrt.R.Block(queued(3))
+					lg.add("released")
+					if _, e := h.Unlock(); e != nil {
+						lg.add("!unlock:%v", e)
+					}
+				})
+				wait()
+			}, func(lg *c19Log) []explore.Violation {
+				s := strings.Join(lg.ev, " ")
+				if strings.Contains(s, "!") {
+					return []explore.Violation{{Sig: "C19:prioritylock-error", Msg: s}}
+				}
+				i3, i2, i1 := strings.Index(s, "+p3"), strings.Index(s, "+p2"), strings.Index(s, "+p1")
+				if i3 < 0 || i2 < 0 || i1 < 0 {
+					return []explore.Violation{{Sig: "C19:prioritylock-starved", Msg: s}}
+				}
+				if !(i3 < i2 && i2 < i1) {
+					return []explore.Violation{{Sig: "C19:prioritylock-order", Msg: fmt.Sprintf("all three requests (arrival order %v) were queued when the holder released, yet they entered in the order: %s", perm, s)}}
+				}
+				return insideOracle("prioritylock", 1, nil)(lg)
+			})})
+	}
 	return &FuncPlan{Scens: scens, MaxExec: func(q bool) int64 {
 		if q {
 			return 500
